@@ -78,8 +78,17 @@ func ParseArgs() Args {
 	fs.IntVar(&a.Shard, "shard", 0, "shard index")
 	fs.IntVar(&a.Shards, "shards", 1, "number of shards")
 	tier := fs.String("tier", "", "quick|thorough")
-	fs.Parse(os.Args[1:])
+	// the tier may come first ("quick --replay f"): the flag package stops at the first positional argument
+	argv := os.Args[1:]
+	pos := ""
+	if len(argv) > 0 && (argv[0] == "quick" || argv[0] == "thorough") {
+		pos, argv = argv[0], argv[1:]
+	}
+	fs.Parse(argv)
 	a.Tier = *tier
+	if a.Tier == "" {
+		a.Tier = pos
+	}
 	rest := fs.Args()
 	if a.Tier == "" && len(rest) > 0 && (rest[0] == "quick" || rest[0] == "thorough") {
 		a.Tier = rest[0]
